@@ -68,9 +68,9 @@ theorem live : ∀ d p, Live game d p := by
     · left; simp [game, hp]
     · right; exact ⟨kids_ne p (by omega), fun c _ => ih c.2⟩
 
-def cfg : Cfg := { depth := 4, noSort := true, noNullMove := true, noReduceSlides := true }
+def cfg : Cfg := { depth := 4, opts := { noSort := true, noNullMove := true, noReduceSlides := true } }
 
-theorem cfg_precise : Precise cfg := ⟨rfl, rfl, rfl, rfl⟩
+theorem cfg_precise : Precise cfg.opts := ⟨rfl, rfl, rfl, rfl⟩
 
 theorem quiet_nc : NoCancel (Oracle.quiet : Oracle Nat) := fun _ _ => rfl
 theorem quiet_order : OrderOK (Oracle.quiet : Oracle Nat) := fun _ _ _ => Iff.rfl
